@@ -268,7 +268,8 @@ PROPS["C16"] = {
     "bounds": "claims (Range): address lengths {0,1,4,6,8,15,16} x all prefixes x all bytes for the round trip; decoder totality "
               "on arbitrary byte strings of total length {0,1,2,6,10,17,18,20}; rotation messages: round trip for key lengths {0,1,31,32}, "
               "decoder totality on arbitrary strings of length {0,8,9,10,12,24} (length fields up to 255 unwound)",
-    "outside": "the node-information codec (NodeInfo: encode_peer_list_part exhausts 16 GB even on concrete addresses) and the "
+    "outside": "the node-information codec as a whole (NodeInfo: encode_peer_list_part exhausts 16 GB even on concrete addresses; only its "
+               "limit-and-flags statements are decided, as an extracted slice) and the "
                "handshake codec as a whole (InitMsg::read_from does not complete under symbolic execution; its cipher-list arm is extracted and "
                "decided); unknown-part skipping; 64 KiB stale tails",
     "assumptions": STD_ASSUME,
@@ -327,6 +328,9 @@ PROPS["C08"]["obligations"] += _sig
 PROPS["C08"]["functions"] += ["InitMsg::read_from (signature read, extracted slice)"]
 PROPS["C08"]["files"] = PROPS["C08"]["files"] + ["src/crypto/init.rs"]
 PROPS["C08"]["assumptions"] = PROPS["C08"]["assumptions"] + [PROPS["C06"]["assumptions"][-1]]
+PROPS["C16"]["obligations"] += [K("c16_peer_entry_limit_and_flags", "one peer-list entry of NodeInfo (limit-and-flags statements of encode_peer_list_part, extracted): for 0..=10 "
+                                  "addresses per family at most seven remain and the flags byte carries exactly the two counts and the identity bit")]
+PROPS["C16"]["functions"] += ["NodeInfo::encode_peer_list_part (limit-and-flags statements, extracted)"]
 PROPS["C16"]["files"] += ["src/crypto/init.rs"]
 PROPS["C16"]["functions"] += ["InitMsg::write_to (cipher-list arm, extracted)", "InitMsg::read_from (cipher-list arm and signature read, extracted)"]
 PROPS["C16"]["bounds"] += "; handshake messages: only the cipher-list part (0..=3 entries, any order, any f32 bits; arbitrary bytes for totality) and the signature read (any length byte)"
